@@ -30,7 +30,11 @@ EXTENDS Integers, Sequences, FiniteSets, TLC, SequencesExt, FiniteSetsExt, DigCa
 
 CONSTANTS MaxInv,     \* bound on the number of Invoke calls per behaviour
           MaxFaults,  \* bound on the number of failing executions per behaviour
-          FaultKinds  \* subset of {"err", "panic"}: outcomes a user function may have besides "ok"
+          FaultKinds, \* subset of {"err", "panic"}: outcomes a user function may have besides "ok"
+          FreeOrder   \* FALSE: parameters are built in the order the implementation uses (BO);
+                      \* TRUE: in any order the properties allow (dig promises no order among
+                      \* independent dependencies) - used to judge whether an execution that
+                      \* differs from the strict prediction is still a legal one
 
 VARIABLES
   ci,        \* index into Cats
@@ -284,11 +288,12 @@ Decorate(d) ==
   /\ UNCHANGED <<ci, opt, created, reg, vals, dvals, grps, dgrps, called, dcalled, verified,
                  execs, okn, stack, fail, ninv, nfault>>
 
-\* a frame: function f being prepared as seen from scope view; pi = next parameter (build order);
+\* a frame: function f being prepared as seen from scope view; bd = the parameters already built
+\* (declaration indices), cj = the parameter being built (0: none chosen yet);
 \* ph = "build" (arguments), "run" (the user function is running and may call Invoke: ni = its
 \* next nested call), "done" (a nested Invoke finished with result res); pre = constructors
 \* already called when this Invoke began (Invoke frames only)
-NewFrame(f, s) == [f |-> f, view |-> s, pi |-> 1, args |-> [j \in 1..Len(Ps(f)) |-> <<>>],
+NewFrame(f, s) == [f |-> f, view |-> s, bd |-> {}, cj |-> 0, args |-> [j \in 1..Len(Ps(f)) |-> <<>>],
                    ph |-> "build", ni |-> 1, pre |-> {}, res |-> NoRes]
 InvFrame(i, s) == [NewFrame(i, s) EXCEPT !.pre = called]
 
@@ -318,9 +323,22 @@ BeginInvoke(i, s) ==
 (* Resolver micro-steps *)
 
 Top     == stack[Len(stack)]
-TopBO   == BO(Top.f)
-TopJ    == TopBO[Top.pi]                 \* declaration index of the parameter being built
+TopJ    == Top.cj                        \* declaration index of the parameter being built
 TopP    == Ps(Top.f)[TopJ]
+
+\* the parameters the top frame may turn to next: the one in progress; else, strictly, the next
+\* in build order; freely, any unbuilt one - except that a soft group that is a direct field of
+\* an object waits until every other field of that object (nested objects included) is built
+SoftDirect(ps, j) == ps[j].m = "soft" /\ Len(ps[j].op) > 0
+InObjectOf(ps, x, j) == Common(ps[x].op, ps[j].op) = Len(ps[j].op)
+MayBuild(fr, j) ==
+  LET ps == Ps(fr.f) IN
+  SoftDirect(ps, j) => \A x \in DOMAIN ps \ {j} :
+      (InObjectOf(ps, x, j) /\ ~(SoftDirect(ps, x) /\ Len(ps[x].op) = Len(ps[j].op))) => x \in fr.bd
+NextParams(fr) ==
+  IF fr.cj # 0 THEN {fr.cj}
+  ELSE IF FreeOrder THEN {j \in DOMAIN Ps(fr.f) \ fr.bd : MayBuild(fr, j)}
+  ELSE {BO(fr.f)[Cardinality(fr.bd) + 1]}
 Pop     == SubSeq(stack, 1, Len(stack) - 1)
 
 Fill(a)     == [t |-> "fill", a |-> a, f |-> "", s |-> "", d |-> NoFail]
@@ -354,8 +372,20 @@ ResolveSingle(p, view) ==
                THEN FailO(Failure("missing", n, 0, TRUE, n, Shallow(n, View(n))))
           ELSE Push(n, View(n))
 
-\* paramGroupedSlice.Build for group key k seen from scope view
-ResolveGroup(p, view) ==
+\* feeders of group k not yet called, as seen from scope view: nearest scope first, registration
+\* order inside a scope
+Uncalled(k, view) ==
+  LET path == Path(view) IN
+  FlattenSeq([j \in 1..Len(path) |-> SelectSeq(ProvsAt(path[j], k), LAMBDA n : n \notin called)])
+\* which uncalled feeder a hard group parameter may call next: strictly the first, freely any
+\* ("" stands for the choice when there is nothing to choose)
+FeederPicks(p, view) ==
+  IF p.m = "grp" /\ Uncalled(p.k, view) # <<>>
+  THEN (IF FreeOrder THEN ToSet(Uncalled(p.k, view)) ELSE {Uncalled(p.k, view)[1]})
+  ELSE {""}
+
+\* paramGroupedSlice.Build for group key k seen from scope view; pick = the feeder to call next
+ResolveGroup(p, view, pick) ==
   LET path     == Path(view)
       \* group decorators that still have to run, root first
       readyDs  == SelectSeq(Reverse(path),
@@ -373,18 +403,18 @@ ResolveGroup(p, view) ==
          ELSE Push(d, s)
   ELSE IF dgScopes # <<>> THEN Fill(DGrpAt(dgScopes[1], p.k))
   ELSE IF p.m = "grp" /\ feeders # <<>> THEN
-     LET n == feeders[1] IN
+     LET n == pick IN
      IF OnStack(n) THEN FailO(Failure("cycle", n, 0, FALSE, n, {}))
      ELSE IF Shallow(n, View(n)) # {}
           THEN FailO(Failure("missing", n, 0, TRUE, n, Shallow(n, View(n))))
      ELSE Push(n, View(n))
   ELSE Fill(FlattenSeq([j \in 1..Len(path) |-> MembersAt(path[j], p.k)]))
 
-Resolve(p, view) == IF p.m \in {"grp", "soft"} THEN ResolveGroup(p, view)
-                    ELSE ResolveSingle(p, view)
+Resolve(p, view, pick) == IF p.m \in {"grp", "soft"} THEN ResolveGroup(p, view, pick)
+                          ELSE ResolveSingle(p, view)
 
-Building == cur.active /\ fail = NoFail /\ stack # <<>> /\ Top.ph = "build" /\ Top.pi <= Len(Ps(Top.f))
-Ready    == cur.active /\ fail = NoFail /\ stack # <<>> /\ Top.ph = "build" /\ Top.pi > Len(Ps(Top.f))
+Building == cur.active /\ fail = NoFail /\ stack # <<>> /\ Top.ph = "build" /\ Top.bd # DOMAIN Ps(Top.f)
+Ready    == cur.active /\ fail = NoFail /\ stack # <<>> /\ Top.ph = "build" /\ Top.bd = DOMAIN Ps(Top.f)
 Running  == cur.active /\ fail = NoFail /\ stack # <<>> /\ Top.ph = "run"
 \* the body of f calls Invoke (never in a dry container: bodies do not run there)
 HasNest(f) == ~opt.dry /\ Nest(f) # <<>>
@@ -398,16 +428,17 @@ SetTop(fr) == [stack EXCEPT ![Len(stack)] = fr]
 
 Descend ==
   /\ Building
-  /\ LET o == Resolve(TopP, Top.view) IN
+  /\ \E j \in NextParams(Top) : \E pick \in FeederPicks(Ps(Top.f)[j], Top.view) :
+     LET o == Resolve(Ps(Top.f)[j], Top.view, pick) IN
      CASE o.t = "fill" ->
-            /\ stack' = SetTop([Top EXCEPT !.args[TopJ] = o.a, !.pi = @ + 1])
+            /\ stack' = SetTop([Top EXCEPT !.args[j] = o.a, !.bd = @ \cup {j}, !.cj = 0])
             /\ UNCHANGED fail
        [] o.t = "push" ->
-            /\ stack' = Append(stack, NewFrame(o.f, o.s))
+            /\ stack' = Append(SetTop([Top EXCEPT !.cj = j]), NewFrame(o.f, o.s))
             /\ UNCHANGED fail
        [] o.t = "fail" ->
             /\ fail' = o.d
-            /\ UNCHANGED stack
+            /\ stack' = SetTop([Top EXCEPT !.cj = j])
   /\ UNCHANGED <<ci, opt, created, reg, decs, vals, dvals, grps, dgrps, called, dcalled,
                  verified, execs, okn, cur, tried, ninv, nfault, log, ret>>
 
@@ -432,7 +463,7 @@ Unwind ==
   /\ IF /\ fail.from # "" /\ Kind(fail.from) = "ctor"
         /\ TopP.m = "opt" /\ fail.md
      THEN \* optional dependency whose constructor lacks dependencies: zero value
-          /\ stack' = SetTop([Top EXCEPT !.args[TopJ] = <<Zero>>, !.pi = @ + 1])
+          /\ stack' = SetTop([Top EXCEPT !.args[TopJ] = <<Zero>>, !.bd = @ \cup {TopJ}, !.cj = 0])
           /\ fail' = NoFail
           /\ UNCHANGED <<cur, ret>>
      ELSE LET step == IF fail.from = "" THEN <<>>
@@ -704,8 +735,8 @@ C10_Groups == HaveExec => \A j \in DOMAIN Ps(LastExec.f) : GroupArgOK(LastExec, 
 
 \* C11: resolving a soft group never pushes a constructor frame (action property)
 C11_NoTrigger_A ==
-  (Building /\ TopP.m = "soft" /\ Len(stack') > Len(stack))
-        => Kind(stack'[Len(stack')].f) = "dec"
+  (Building /\ Len(stack') = Len(stack) + 1 /\ Kind(stack'[Len(stack')].f) = "ctor")
+        => Ps(Top.f)[stack'[Len(stack)].cj].m # "soft"
 C11_NoTrigger == [][C11_NoTrigger_A]_vars
 
 \* C12: one decorator per key and scope
